@@ -18,12 +18,27 @@ Case = {'mode': ..., 'ops': [...]}, ops (instances are indexes into INST):
   ['cleanup', k]           real `cleanup.Cleanup.invoke` for the k-th (sorted) cleanup link
   ['cleanup_all', which]   ... for every link ('cont': only the links `_terminate` made)
   ['restart']              new AppCfgMgr object on the same root; queued events are lost
+  ['crash', k]             arms a kill: the next manager activity (handler call) that mutates the node root is
+                           killed right BEFORE its k-th file system mutation (os.symlink / rename / replace /
+                           unlink / rmdir / mkdir / shutil.rmtree / creation or opening-for-write of a file, counted at
+                           the `os` / `shutil` / `open` level, so the calls inside fs.symlink_safe / fs.write_safe /
+                           fs.replace / utils.touch are crash points; inside one `appcfg.configure.configure` call only
+                           its mutations 1-4 and every 8th later one are crash points); a handler with fewer mutations
+                           completes and disarms. After the kill: the mutations the dead handler did make are replayed
+                           to the model as primitive lines (`pmkapp`, `prunlink`, `ptermmv`, `pmark`, `pcleanlink`,
+                           `pcacherm`, `prmapp`), then `restart` (new manager, idle; queued events lost). The new
+                           manager synchronises at the next delivered `.ready` notification (the generator
+                           puts one right after the crash in most histories, later or never in the others).
   ['reboot']               node restart: run.sh clears running/ and cleanup/; new manager
+  ['startup', j, what, i, ok]  manager restart through the REAL `AppCfgMgr.run()` (until it would block for the second
+                           time); right before run()'s j-th statement cache/<i> is created / deleted; a change before
+                           run() created its DirWatcher queues no event; at the first wait cache/.ready is re-notified
 
 One driver line per FS change / handler call / environment move; observable after each = the whole
 tree: active flag, cache (generation, configurable), apps (marker files), running and cleanup link
 tables with targets.
 """
+import contextlib
 import errno
 import io
 import os
@@ -66,9 +81,10 @@ RULE = {
     'C13': 'random node histories (10-40 ops: manifests written/removed by the event manager incl. '
            'evict-and-place-again of one instance, FIFO delivery of the queued inotify events with '
            'arbitrary delay, readiness flips, manager restarts, containers flagged/finishing on their '
-           'own, cleanup completing at arbitrary later points) on the real AppCfgMgr over a real '
-           'temporary directory; streams: clean (no known-finding trigger), wild, edge (ignored '
-           'events, no-op moves); non-trivial = >=1 resynchronisation that found >=2 containers in '
+           'own, cleanup completing at arbitrary later points, the manager killed before the k-th file '
+           'system mutation of a handler and restarted) on the real AppCfgMgr over a real '
+           'temporary directory; streams: clean (no known-finding trigger), wild, each also with armed '
+           'crashes, edge (ignored events, no-op moves); non-trivial = >=1 resynchronisation that found >=2 containers in '
            'apps/ AND a _terminate AND a _configure AND a restart or readiness flip after the first '
            'sync; distinct = distinct op-list hash',
 }
@@ -221,6 +237,10 @@ def _gen_wild(rng, edge):
         elif r < 0.68:
             ops.append(['ready', 0])
         elif r < 0.72:
+            if r2.random() < 0.5:
+                ops.append(['startup', r2.randint(1, 14), r2.choice(['create', 'create', 'delete']), r2.randrange(n),
+                            r2.random() < 0.9])
+                continue
             ops.append(['restart'])
             if rng.random() < 0.8:
                 ops.append(['ready', 1])
@@ -257,12 +277,43 @@ def _gen_wild(rng, edge):
     return ops
 
 
+def _with_crashes(rng, ops, sure_resync):
+    """Arm a kill before some of the deliveries: k is small (the first steps of a handler: _terminate's rename
+    and touch, the first mutations of configure, a cleanup link of _synchronize) or spread over a whole
+    synchronisation (one _configure call has about 8 crash points)."""
+    out = []
+    n = 0
+    for op in ops:
+        if op[0] == 'deliver' and n < 4 and rng.random() < 0.45:
+            r = rng.random()
+            if r < 0.35:
+                k = rng.randint(1, 3)
+            elif r < 0.75:
+                k = rng.randint(4, 10)
+            else:
+                k = rng.randint(11, 30)
+            out.append(['crash', k])
+            n += 1
+            out.append(op)
+            if sure_resync or rng.random() < 0.7:
+                # the event manager's periodic notification: the restarted manager synchronises (a no-op when the
+                # handler completed and the manager is still active)
+                out += [['ready', 1], ['deliver', 1]]
+            continue
+        out.append(op)
+    return out
+
+
 def gen_case(rng, pid, tier):
     r = rng.random()
-    if r < 0.40:
+    if r < 0.32:
         return {'mode': 'clean', 'ops': _gen_clean(rng)}
-    if r < 0.88:
+    if r < 0.50:
+        return {'mode': 'clean+crash', 'ops': _with_crashes(rng, _gen_clean(rng), True)}
+    if r < 0.78:
         return {'mode': 'wild', 'ops': _gen_wild(rng, False)}
+    if r < 0.90:
+        return {'mode': 'wild+crash', 'ops': _with_crashes(rng, _gen_wild(rng, False), False)}
     return {'mode': 'edge', 'ops': _gen_wild(rng, True)}
 
 
@@ -404,6 +455,22 @@ def monitor_handler(kind, name, pre, post, prims, synced, app_name):
 # real-code runner
 # --------------------------------------------------------------------------------------
 
+class _Crash(BaseException):
+    """The manager process is killed (SIGKILL / power cut): nothing in the code under test catches it."""
+
+
+class _StopRun(BaseException):
+    """Ends the endless loop of the real `AppCfgMgr.run` when the manager would block with nothing to do."""
+
+
+class _Restarted(BaseException):
+    """Raised by `handler` after a crash was handled: the events the dead manager still held are lost."""
+
+
+CFG_FINE = 4        # inside one configure.configure call: mutations 1..CFG_FINE are crash points ...
+CFG_STRIDE = 8      # ... and every CFG_STRIDE-th later one
+
+
 class _World:
     """The real AppCfgMgr on a temporary root, with the harness-side inotify queue."""
 
@@ -424,6 +491,17 @@ class _World:
         self.env = None
         self.first_hit = False
         self.broken = set()         # instances whose (unchanged) cache file `configure` now fails on
+        self.crash_k = None         # armed crash: kill before the k-th mutation of the next mutating activity
+        self.crash_on = False       # a manager activity is running with the crash armed
+        self.crash_count = 0
+        self.crash_log = []         # mutations the (possibly dying) handler completed: (prim, path, path2)
+        self.crash_site = None
+        self.last_crash_site = None
+        self.dead = False
+        self.in_cfg = 0
+        self.cfg_mut = 0
+        self.in_rmtree = 0
+        self.ever_inst = set()      # instance names the cache ever held
         self.stats = {'sync': 0, 'sync2': 0, 'terminate': 0, 'configure': 0, 'flip': 0, 'hits': 0,
                       'handlers': 0}
 
@@ -444,7 +522,125 @@ class _World:
         # a loadable manifest: the REAL `appcfg.configure.configure` (container directory, services, copy of the
         # event as data/manifest.yml ...); only the runtime plugin lookup and the executable lookup are stubbed
         self.stats['configure'] += 1
-        return self.real_configure(tm_env, event, runtime, runtime_param)
+        self.in_cfg += 1
+        self.cfg_mut = 0
+        try:
+            return self.real_configure(tm_env, event, runtime, runtime_param)
+        finally:
+            self.in_cfg -= 1
+
+    # ---- crash points ------------------------------------------------------------------------------
+    def _crash_site(self, prim):
+        """<innermost appcfgmgr function>:<treadmill helper>:<os primitive> of the mutation about to happen"""
+        mgrfn = None
+        helper = None
+        f = sys._getframe(2)
+        while f is not None:
+            fn = f.f_code.co_filename
+            name = f.f_code.co_name
+            if fn.endswith('appcfgmgr.py') and name != '_first_sync':
+                mgrfn = name
+                break
+            if helper is None and ((fn.endswith('fs/__init__.py') and name in (
+                    'symlink_safe', 'write_safe', 'rm_safe', 'mkdir_safe')) or
+                                   (fn.endswith('utils.py') and name == 'touch')):
+                helper = name
+            f = f.f_back
+        if self.in_cfg:
+            return '%s:configure()' % (mgrfn or 'env')
+        return '%s:%s%s' % (mgrfn or 'env', (helper + ':') if helper else '', prim)
+
+    def mut(self, prim, path):
+        """Called before every mutating os-level call; raises _Crash at the armed point and for everything a
+        dead process 'does' afterwards (finally blocks and context managers a real kill would not run)."""
+        if not self.crash_on:
+            return False
+        if self.dead:
+            raise _Crash()
+        if self.in_rmtree and prim != 'rmtree':
+            return False
+        try:
+            path = os.fspath(path)
+        except TypeError:
+            return False
+        if isinstance(path, bytes):
+            path = path.decode()
+        if not path.startswith(self.root + os.sep):
+            return False
+        if self.in_cfg:
+            self.cfg_mut += 1
+            if self.cfg_mut > CFG_FINE and self.cfg_mut % CFG_STRIDE:
+                return True
+        self.crash_count += 1
+        if self.crash_k is not None and self.crash_count == self.crash_k:
+            self.dead = True
+            self.crash_site = self._crash_site(prim)
+            raise _Crash()
+        return True
+
+    def os_patches(self):
+        """mock patchers for the mutating calls of os / shutil / open"""
+        import builtins
+        world = self
+
+        def one(prim, orig, idx=0):
+            def f(*a, **kw):
+                logged = world.mut(prim, a[idx]) if len(a) > idx else False
+                r = orig(*a, **kw)
+                if logged:
+                    world.crash_log.append((prim, os.fspath(a[idx]), os.fspath(a[0]) if idx else None))
+                return r
+            return f
+
+        def rmtree(orig):
+            def f(path, *a, **kw):
+                logged = world.mut('rmtree', path)
+                world.in_rmtree += 1
+                try:
+                    r = orig(path, *a, **kw)
+                finally:
+                    world.in_rmtree -= 1
+                if logged:
+                    world.crash_log.append(('rmtree', os.fspath(path), None))
+                return r
+            return f
+
+        def os_open(orig):
+            def f(path, flags, *a, **kw):
+                logged = False
+                if flags & (os.O_CREAT | os.O_WRONLY | os.O_RDWR | os.O_TRUNC | os.O_APPEND):
+                    logged = world.mut('open', path)
+                r = orig(path, flags, *a, **kw)
+                if logged:
+                    world.crash_log.append(('open', os.fspath(path), None))
+                return r
+            return f
+
+        def py_open(orig):
+            def f(file, mode='r', *a, **kw):
+                logged = False
+                if isinstance(file, (str, bytes, os.PathLike)) and isinstance(mode, str) and set(mode) & set('wax+'):
+                    logged = world.mut('open', file)
+                r = orig(file, mode, *a, **kw)
+                if logged:
+                    world.crash_log.append(('open', os.fspath(file), None))
+                return r
+            return f
+        return [
+            mock.patch('os.symlink', one('symlink', os.symlink, 1)),
+            mock.patch('os.rename', one('rename', os.rename, 1)),
+            mock.patch('os.replace', one('rename', os.replace, 1)),
+            mock.patch('os.link', one('link', os.link, 1)),
+            mock.patch('os.unlink', one('unlink', os.unlink)),
+            mock.patch('os.remove', one('unlink', os.remove)),
+            mock.patch('os.rmdir', one('rmdir', os.rmdir)),
+            mock.patch('os.mkdir', one('mkdir', os.mkdir)),
+            mock.patch('os.mkfifo', one('mkfifo', os.mkfifo)),
+            mock.patch('shutil.rmtree', rmtree(shutil.rmtree)),
+            mock.patch('os.open', os_open(os.open)),
+            mock.patch('io.open', py_open(io.open)),
+            mock.patch('builtins.open', py_open(builtins.open)),
+        ]
 
     def _site(self):
         names = []
@@ -587,6 +783,7 @@ class _World:
 
             def _wait_for_events(self, timeout):
                 return bool(world.queue)
+        self.QueueWatcher = _QueueWatcher
         self.more_pending = dirwatch_base.DirWatcherEvent.MORE_PENDING
         self.expected = []          # events handed to the watcher, in inotify (FIFO) order, not yet delivered
         self.watcher = _QueueWatcher(self.env.cache_dir)
@@ -613,6 +810,8 @@ class _World:
             self.overflow_read = False
             try:
                 res = self.watcher.process_events(max_events=min(5, left))
+            except _Restarted:
+                return
             except KeyError:
                 if not self.overflow_read:
                     raise
@@ -648,9 +847,27 @@ class _World:
             s['apps'][n] = tuple(m for m in MARKERS if os.path.exists(os.path.join(env.apps_dir, n, 'data', m)))
         for key, d in (('running', env.running_dir), ('cleanup', env.cleanup_dir)):
             for n in sorted(os.listdir(d)):
+                if n.startswith('.'):
+                    # hidden entries (the temporary links of fs.symlink_safe) are invisible to every consumer:
+                    # s6-svscan, the globs of the manager, run.sh, cleanup
+                    continue
                 p = os.path.join(d, n)
                 s[key][n] = os.path.basename(os.readlink(p)) if os.path.islink(p) else '?'
         return s
+
+    def legal_link(self, dirname, n):
+        """an instance name the cache has known, or (cleanup/ only) a container name apps/ has known"""
+        return n in self.ever_inst or (dirname == 'cleanup' and n in self.gens)
+
+    def monitor_stray(self, s):
+        hits = []
+        for key in ('running', 'cleanup'):
+            for n, t in sorted(s[key].items()):
+                if not self.legal_link(key, n):
+                    hits.append(fw.Hit(clause='stray-link', call_site=self.last_crash_site or 'env',
+                                       detail='%s/%s -> %s is neither an instance of the cache nor a container of '
+                                              'apps/' % (key, n, t)))
+        return hits
 
     def cid(self, cname):
         inst = self.orig_app_name(cname)
@@ -666,6 +883,11 @@ class _World:
                          for n, (c, ok) in sorted(s['cache'].items(), key=lambda kv: INST.index(kv[0]))) or '-'
         apps = ','.join('%s:%d' % (self.cid(c), sum(1 << MARKERS.index(m) for m in ms))
                         for c, ms in sorted(s['apps'].items(), key=lambda kv: self.cid_key(kv[0]))) or '-'
+        stray = sorted('%s/S>%s' % (k, self.cid(t)) for k in ('running', 'cleanup')
+                       for n, t in s[k].items() if not self.legal_link(k, n))
+        if stray:
+            s = dict(s, running={n: t for n, t in s['running'].items() if self.legal_link('running', n)},
+                     cleanup={n: t for n, t in s['cleanup'].items() if self.legal_link('cleanup', n)})
         running = ','.join('%d>%s' % (INST.index(n), self.cid(t))
                            for n, t in sorted(s['running'].items(), key=lambda kv: INST.index(kv[0]))) or '-'
 
@@ -679,11 +901,13 @@ class _World:
             return 'I:%d' % INST.index(n) if n in INST else 'C:%s' % self.cid(n)
         cleanup = ','.join('%s>%s' % (ls(n), self.cid(t))
                            for n, t in sorted(s['cleanup'].items(), key=lambda kv: lk(kv[0]))) or '-'
-        return 'active=%d cache=%s apps=%s running=%s cleanup=%s' % (
-            1 if s['active'] else 0, cache, apps, running, cleanup)
+        return 'active=%d cache=%s apps=%s running=%s cleanup=%s%s' % (
+            1 if s['active'] else 0, cache, apps, running, cleanup,
+            (' stray=' + ','.join(stray)) if stray else '')
 
     def emit(self, line, post, hits):
         self.run.op(line, self.obs(post))
+        hits = list(hits) + self.monitor_stray(post)
         if hits and not self.first_hit:
             # later states are consequences of the first violation: report the first step only
             self.first_hit = True
@@ -711,6 +935,7 @@ class _World:
             raise fw.InfraError('file system does not give fresh unique ids')
         g = len(self.gens)
         self.gens[cname] = g
+        self.ever_inst.add(name)
         self.broken.discard(name)       # a new file: a new manifest
         self.queue.append(('created', name))
         self.prims = []
@@ -760,7 +985,23 @@ class _World:
         self.sync_corder = []
         was_active = mgr._is_active is True
         before_cache = set(pre['cache'])
-        getattr(mgr, '_on_' + kind)(path)
+        self.crash_count = 0
+        self.crash_log = []
+        self.crash_on = self.crash_k is not None
+        crashed = False
+        try:
+            getattr(mgr, '_on_' + kind)(path)
+        except _Crash:
+            crashed = True
+        finally:
+            self.crash_on = False
+            self.dead = False
+        if crashed:
+            self.crashed(kind, name, pre)
+            raise _Restarted()
+        if self.crash_k is not None and self.crash_count:
+            self.crash_k = None         # the activity had fewer than k mutations: it completed
+            self.stats['crash-missed'] = self.stats.get('crash-missed', 0) + 1
         post = self.snap()
         self.stats['handlers'] += 1
         # files the manager itself removed from the cache generate inotify events
@@ -835,16 +1076,193 @@ class _World:
         self.queue = self.queue[:keep] + [('overflow', '')]
         self.stats['overflow'] = self.stats.get('overflow', 0) + 1
 
+    def prim_lines(self):
+        """The mutations the dead handler completed, as primitive state changes of the model's tree (everything
+        below a container directory except the marker files, and hidden entries, are invisible to it)."""
+        lines = []
+        for prim, path, src in self.crash_log:
+            parts = os.path.relpath(path, self.root).split(os.sep)
+            sparts = os.path.relpath(src, self.root).split(os.sep) if src else None
+            if any(x.startswith('.') for x in parts):
+                continue
+            if prim == 'mkdir' and len(parts) == 2 and parts[0] == 'apps' and parts[1] in self.gens:
+                lines.append('pmkapp %s' % self.cid(parts[1]))
+            elif prim == 'rmtree' and len(parts) == 2 and parts[0] == 'apps' and parts[1] in self.gens:
+                lines.append('prmapp %s' % self.cid(parts[1]))
+            elif prim == 'open' and len(parts) == 4 and parts[0] == 'apps' and parts[2] == 'data' and \
+                    parts[3] in MARKERS and parts[1] in self.gens:
+                lines.append('pmark %s %s' % (self.cid(parts[1]), parts[3]))
+            elif prim == 'unlink' and len(parts) == 2 and parts[0] == 'cache' and parts[1] in INST:
+                lines.append('pcacherm %d' % INST.index(parts[1]))
+            elif prim == 'rename' and len(parts) == 2 and parts[0] in ('running', 'cleanup'):
+                try:
+                    target = os.path.basename(os.readlink(path))
+                except OSError:
+                    target = None
+                if target not in self.gens:
+                    lines.append('punknown')
+                elif sparts and sparts[0] == 'running' and not sparts[1].startswith('.') and \
+                        parts[0] == 'cleanup' and parts[1] == target and sparts[1] in INST:
+                    lines.append('ptermmv %d' % INST.index(sparts[1]))
+                elif parts[0] == 'running' and parts[1] in INST:
+                    lines.append('prunlink %d %s' % (INST.index(parts[1]), self.cid(target)))
+                elif parts[0] == 'cleanup' and parts[1] in INST:
+                    lines.append('pcleanlink %d %s' % (INST.index(parts[1]), self.cid(target)))
+                else:
+                    lines.append('punknown')
+        return lines
+
+    def crashed(self, kind, name, pre):
+        """The manager was killed inside the handler `kind name`: judge the tree it left behind, restart it and
+        let the new one synchronise."""
+        site = self.crash_site
+        self.last_crash_site = site
+        self.crash_k = None
+        self.expected = []
+        self.stats['crash'] = self.stats.get('crash', 0) + 1
+        self.run.tags.add('crash@' + site)
+        mid = self.snap()
+        # the property's state clauses on the half-done handler: at most one link per container, no finished
+        # container linked back into running, an unchanged running container untouched (the clauses about the
+        # RESULT of a synchronisation / a delete event are judged after the restart's synchronisation)
+        hits = monitor_single_ref(mid, self.prims, self.orig_app_name, site)
+        hits += monitor_handler('crashed:' + kind, name, pre, mid, self.prims, False, self.orig_app_name)
+        for ln in self.prim_lines():
+            self.run.op(ln, None)
+        if hits and not self.first_hit:
+            self.first_hit = True
+            self.run.hits.extend(hits)
+            self.stats['hits'] += len(hits)
+        # (files the dead manager removed from the cache: their inotify events went to a watch that no longer exists)
+        self.restart()
+
     def restart(self):
         self.queue = []
         self.new_manager()
         post = self.snap()
         self.emit('restart', post, [])
 
+    def cleanup_links(self):
+        """what the cleanup service sees: `glob(cleanup/*)` (no hidden entries)"""
+        return sorted(n for n in os.listdir(self.env.cleanup_dir) if not n.startswith('.'))
+
+    def startup(self, j, what, i, ok):
+        """Manager restart through the REAL `AppCfgMgr.run()`: its start-up sequence runs statement by statement
+        (line tracer on run()'s frame); right before its j-th statement the event manager changes the cache
+        (`what` = create | delete of instance i). A change made before run() has created its DirWatcher produces
+        no event (there is no watch yet), a later one is queued. When run() first blocks in wait_for_events the
+        event manager's periodic notification of cache/.ready arrives; run() then processes events in its own
+        rounds of process_events(max_events=5) until it would block again, where the harness stops the loop.
+        Whatever happened to the cache before the manager first blocked must be reflected then."""
+        from treadmill import appcfgmgr
+        world = self
+        self.queue = []
+        self.expected = []
+        self.new_manager()
+        mgr = self.mgr
+        pre = self.snap()
+        self.emit('restart', pre, [])
+        name = INST[i]
+        st = {'n': 0, 'injected': None, 'live': False, 'notified': False, 'cbs': {}}
+        run_code = appcfgmgr.AppCfgMgr.run.__code__
+        ready = os.path.join(self.env.cache_dir, '.ready')
+
+        def inject(where):
+            if st['injected']:
+                return
+            st['injected'] = '%s:%s' % ('watch-exists' if st['live'] else 'before-watch', where)
+            if what == 'create':
+                world.fs_create(i, ok)
+            else:
+                world.fs_delete(i)
+            if not st['live']:
+                world.queue = []        # nobody watches the directory yet: no event
+
+        Base = self.QueueWatcher
+
+        def cb_prop(kind):
+            def getter(_self):
+                return lambda path: world.delivered(kind, os.path.basename(path))
+
+            def setter(_self, value):
+                st['cbs'][kind] = value
+            return property(getter, setter)
+
+        class _RunWatcher(Base):
+            """the DirWatcher `run()` creates: the harness' queue underneath, the harness' monitored dispatch on top
+            (the callbacks run() registers are checked to be the manager's handlers)"""
+            on_created = cb_prop('created')
+            on_modified = cb_prop('modified')
+            on_deleted = cb_prop('deleted')
+
+            def __init__(self_, watch_dir):         # pylint: disable=no-self-argument
+                Base.__init__(self_, watch_dir)
+                st['live'] = True
+                world.watcher = self_
+
+            def _wait_for_events(self_, timeout):   # pylint: disable=no-self-argument
+                inject('first-wait')
+                if not st['notified']:
+                    st['notified'] = True
+                    if os.path.exists(ready):
+                        world.ready(True)
+                if not world.queue:
+                    raise _StopRun()
+                return True
+
+        def tracer(frame, event, _arg):
+            if frame.f_code is not run_code:
+                return None
+            if event == 'line':
+                st['n'] += 1
+                if st['n'] == j:
+                    inject('line+%d' % (frame.f_lineno - run_code.co_firstlineno))
+            return tracer
+
+        lease = mock.Mock()
+        old_trace = sys.gettrace()
+        died = False
+        try:
+            with mock.patch('treadmill.dirwatch.DirWatcher', _RunWatcher), \
+                    mock.patch('treadmill.watchdog.Watchdog.create', mock.Mock(return_value=lease)):
+                sys.settrace(tracer)
+                try:
+                    mgr.run()
+                finally:
+                    sys.settrace(old_trace)
+        except _StopRun:
+            pass
+        except _Restarted:
+            died = True
+        self.stats['startup'] = self.stats.get('startup', 0) + 1
+        self.run.tags.add('startup:change@' + (st['injected'] or 'none').split(':')[0])
+        if died or self.mgr is not mgr:
+            return
+        for kind, attr in (('created', '_on_created'), ('modified', '_on_modified'), ('deleted', '_on_deleted')):
+            if st['cbs'].get(kind) != getattr(mgr, attr):
+                self.run.hits.append(fw.Hit(clause='startup-wiring', call_site='run',
+                                            detail='on_%s is %r' % (kind, st['cbs'].get(kind))))
+        post = self.snap()
+        if post['active'] and not self.first_hit:
+            # the manager went active during start-up: it has synchronised; the result must reflect the cache as it
+            # is now (nothing is queued any more), in particular the change made while it started
+            mid = dict(pre, cache=post['cache'])
+            hits = [h for h in monitor_handler('startup', '.ready', mid, post, [], True, self.orig_app_name)
+                    if h['clause'].startswith('sync:') or h['clause'] == 'handoff']
+            mine = [h for h in hits if name in h['detail'] or name.replace('#', '-') in h['detail']]
+            if mine:
+                self.first_hit = True
+                self.stats['hits'] += 1
+                self.run.hits.append(fw.Hit(
+                    clause='startup-lost-event', call_site='run:' + (st['injected'] or 'none').split(':')[0],
+                    detail='%s of cache/%s while the manager started (%s) is not reflected after its first round of '
+                           'events: %s' % (what, name, st['injected'], mine[0]['detail'])))
+
     def reboot(self):
         for d in (self.env.running_dir, self.env.cleanup_dir):
             for n in os.listdir(d):
-                os.unlink(os.path.join(d, n))
+                if not n.startswith('.'):       # run.sh: rm -f running/* cleanup/*
+                    os.unlink(os.path.join(d, n))
         self.queue = []
         self.new_manager()
         post = self.snap()
@@ -881,11 +1299,17 @@ def run_impl(case, pid):
                 mock.patch('treadmill.fs.replace', w.wrap_replace(tm_fs.replace)), \
                 mock.patch('treadmill.fs.symlink_safe', w.wrap_symlink_safe(tm_fs.symlink_safe)), \
                 mock.patch('treadmill.appcfg.app_name', w.rec_app_name), \
-                mock.patch('treadmill.appcfg.eventfile_unique_name', w.rec_unique_name):
+                mock.patch('treadmill.appcfg.eventfile_unique_name', w.rec_unique_name), \
+                contextlib.ExitStack() as stack:
+            if any(op[0] == 'crash' for op in case['ops']):
+                for patcher in w.os_patches():
+                    stack.enter_context(patcher)
             w.new_manager()
             for op in case['ops']:
                 k = op[0]
-                if k == 'fs_create':
+                if k == 'crash':
+                    w.crash_k = max(1, int(op[1]))
+                elif k == 'fs_create':
                     w.fs_create(int(op[1]) % len(INST), bool(op[2]))
                 elif k == 'fs_delete':
                     w.fs_delete(int(op[1]) % len(INST))
@@ -899,27 +1323,33 @@ def run_impl(case, pid):
                     w.deliver(int(op[1]))
                 elif k == 'ev':
                     name = op[2]
-                    if isinstance(name, int):
-                        # IN_MODIFY / IN_ATTRIB on a manifest: the only instance event that is
-                        # always possible and always ignored
-                        w.handler('modified', INST[name % len(INST)])
-                    elif op[1] in ('created', 'modified', 'deleted') and name in IGNORED_NAMES:
-                        w.handler(op[1], name)
+                    try:
+                        if isinstance(name, int):
+                            # IN_MODIFY / IN_ATTRIB on a manifest: the only instance event that is
+                            # always possible and always ignored
+                            w.handler('modified', INST[name % len(INST)])
+                        elif op[1] in ('created', 'modified', 'deleted') and name in IGNORED_NAMES:
+                            w.handler(op[1], name)
+                    except _Restarted:
+                        pass
                 elif k == 'flag':
                     if op[2] in FLAGS:
                         w.flag(int(op[1]) % len(INST), op[2])
                 elif k == 'finish':
                     w.finish(int(op[1]) % len(INST), bool(op[2]))
                 elif k == 'cleanup':
-                    links = sorted(os.listdir(w.env.cleanup_dir))
+                    links = w.cleanup_links()
                     if links:
                         w.cleanup_link(links[int(op[1]) % len(links)])
                 elif k == 'cleanup_all':
-                    for ln in sorted(os.listdir(w.env.cleanup_dir)):
+                    for ln in w.cleanup_links():
                         if op[1] == 'all' or ln not in INST:
                             w.cleanup_link(ln)
                 elif k == 'restart':
                     w.restart()
+                elif k == 'startup':
+                    w.startup(int(op[1]), 'create' if op[2] == 'create' else 'delete', int(op[3]) % len(INST),
+                              bool(op[4]))
                 elif k == 'reboot':
                     w.reboot()
         s = w.stats
@@ -928,6 +1358,10 @@ def run_impl(case, pid):
             run.tags.add('batch-limit-reached')
         if s.get('overflow-died'):
             run.tags.add('queue-overflow:manager-died-and-resynced')
+        if s.get('crash'):
+            run.tags.add('crashed')
+        if s.get('crash-missed'):
+            run.tags.add('crash-armed-but-handler-completed')
         if w.broken or s.get('cfg-break'):
             run.tags.add('configure-broken-for-unchanged-file')
         run.tags.add('syncs=%d' % min(s['sync'], 4))
